@@ -477,7 +477,7 @@ func genStress(rng *hx.Rng, kind string, scale int) string {
 		return fmt.Sprintf("stress evictsame %d 8 %d", rng.Range(50, 400), seed)
 	case "dvzero":
 		return genDVZero(rng)
-	case "stack", "stackforced", "stackvar", "stacksorted":
+	case "stack", "stackforced", "stackvar", "stacksorted", "basewrite":
 		return genStack(rng, kind)
 	case "evictmax":
 		return fmt.Sprintf("stress evictmax %d %d %d", rng.Range(100, 300), rng.Range(2, 6), seed)
@@ -558,6 +558,10 @@ func main() {
 		// two notifications overtake each other)
 		{"stress stackforced ds-sub 0 1", "stress stackforced ds-sub 1 2", "stress stackforced ds-sub 2 3", "stress stackforced ds-ds 0 1", "stress stackforced ds-ds 1 4",
 			"stress stackforced ds-ds-sub 0 2", "stress stackforced sub-sub 0 1", "stress stackforced sub-ds 0 5", "stress stackforced ds-sub-sub 1 1"},
+		// every write path of a plain reactive set as the writer whose notification is delayed (adding and removing)
+		{"stress basewrite single compute 1 1", "stress basewrite all replace 1 2", "stress basewrite apply single 1 3", "stress basewrite replace all 1 4",
+			"stress basewrite compute apply 1 5", "stress basewrite single apply 0 1", "stress basewrite all single 0 2", "stress basewrite apply compute 0 3",
+			"stress basewrite replace single 0 4", "stress basewrite compute all 0 5"},
 		// evictors released together with different slots: the last evicted slot must be the maximum
 		{"stress evictmax 3000 4 1", "stress evictmax 1500 2 2", "stress evictmax 1000 8 3"},
 	}
@@ -598,6 +602,8 @@ func main() {
 		if i%10 == 0 { // forced schedules wait for a writer that (on correct code) is blocked: few of them
 			rng, sub := r.Rng.Fork()
 			runCase(r, sub, []string{genStress(rng, "stackforced", r.Scale)})
+			rng, sub = r.Rng.Fork()
+			runCase(r, sub, []string{genStress(rng, "basewrite", r.Scale)})
 		}
 		for _, k := range kinds {
 			rng, sub := r.Rng.Fork()
